@@ -173,3 +173,46 @@ Definition check_ckpt (c : ckpt_case) : N :=
                        forallb (fun k => option_eqb obs_eqb (rec_obs t K sn w k) ro) (range a z stp)) crashes)
                     images) then V_MISMATCH
     else gens_model t K (fst (step (ser_of t) crc32u the_cfg d1 Ckpt)) [g2].
+
+(* ---------------------------------------------------------------- rotation, then checkpoint, then writes *)
+(* The log rotates when a record would push it past max_size_bytes: the live file is renamed
+   away and an empty one is started (what was in it is gone for recovery: known class
+   wal-rotation).  A COMPLETED checkpoint afterwards puts everything into the snapshot, so from
+   then on the guarantee must hold again, whatever rotations happened before it.
+   (payload table, K, max_size_bytes, calls before the checkpoint (at least one rotation among
+    them), their results, what the live store showed at the checkpoint, the log length on disk at
+    that moment, then one generation of calls after the checkpoint, crashed at every byte and
+    recovered with the snapshot) *)
+Definition rot_case := (tab * N * N * list op * list bool * obs * N * gen_rec)%type.
+
+Fixpoint split_frames (fuel : nat) (bs : list byte) : list (list byte) :=
+  match fuel with
+  | O => []
+  | S f =>
+      if (length bs <? 8)%nat then [] else
+      let len := (8 + N.to_nat (de32 (firstn 4 bs)))%nat in
+      firstn len bs :: split_frames f (skipn len bs)
+  end.
+(* write_entry_no_sync: `if current_size + write_size > max_size_bytes { rotate() }` per record *)
+Definition rot_append (maxsz : N) (f : list byte) (frames : list (list byte)) : list byte :=
+  fold_left (fun f fr => if maxsz <? N.of_nat (length f + length fr) then fr else f ++ fr) frames f.
+Definition step_rot (t : tab) (maxsz : N) (d : dstore) (o : op) : dstore * bool :=
+  let '(d', ok) := step (ser_of t) crc32u the_cfg (D (st d) [] (snap d) (ctr d)) o in
+  (D (st d') (rot_append maxsz (file d) (split_frames (S (length (file d'))) (file d'))) (snap d') (ctr d'), ok).
+Fixpoint run_rot (t : tab) (maxsz : N) (d : dstore) (ops : list op) : dstore * list bool :=
+  match ops with
+  | [] => (d, [])
+  | o :: r => let '(d1, ok) := step_rot t maxsz d o in
+              let '(d2, oks) := run_rot t maxsz d1 r in (d2, ok :: oks)
+  end.
+
+Definition check_rot (c : rot_case) : N :=
+  let '(t, K, maxsz, ops1, res1, live, wlen, g2) := c in
+  (* the oracle: everything acknowledged after the completed checkpoint survives *)
+  if negb (gen_oracle g2) then V_VIOLATION
+  else
+    let '(d1, oks) := run_rot t maxsz d0 ops1 in
+    if negb (list_eqb Bool.eqb oks res1) then V_MISMATCH
+    else if negb (obs_eqb (observe K (st d1)) live) then V_MISMATCH
+    else if negb (N.eqb (N.of_nat (length (file d1))) wlen) then V_MISMATCH
+    else gens_model t K (fst (step (ser_of t) crc32u the_cfg d1 Ckpt)) [g2].
